@@ -137,6 +137,7 @@ func main() {
 	r.FloorNontrivial(int64(r.Pick(15, 150)))
 	r.FloorCount("restores_judged", int64(r.Pick(30, 300)))
 	r.FloorCount("restores_with_several_proposals", int64(r.Pick(10, 100)))
+	r.FloorCount("restores_retried_after_a_broken_attempt", int64(r.Pick(10, 100)))
 	r.FloorCount("restores_unlimited_log", int64(r.Pick(2, 12)))
 	r.FloorCount("backup_roundtrips", int64(r.Pick(1, 4)))
 	r.FloorCount("corrupted_backups_refused", int64(r.Pick(2, 8)))
@@ -252,6 +253,24 @@ func put(e *storage.Engine, table, k string, v []byte) error {
 
 // restoreWithWatchdog runs Engine.Restore; a restore that does not return is inconclusive here
 // (it retries rejected proposals forever by design).
+// breakingReader fails after `left` bytes.
+type breakingReader struct {
+	r    io.Reader
+	left int
+}
+
+func (b *breakingReader) Read(p []byte) (int, error) {
+	if b.left <= 0 {
+		return 0, fmt.Errorf("stream broken (injected)")
+	}
+	if len(p) > b.left {
+		p = p[:b.left]
+	}
+	n, err := b.r.Read(p)
+	b.left -= n
+	return n, err
+}
+
 func restoreWithWatchdog(e *storage.Engine, name string, rd io.Reader) (error, bool) {
 	done := make(chan error, 1)
 	go func() { done <- e.Restore(name, rd) }()
@@ -288,9 +307,38 @@ func runThreshold(r *ev.Run, id caseID) {
 			est = 0
 		}
 	}
-	for variant := 0; variant < 3; variant++ {
+	for variant := 0; variant < 4; variant++ {
 		name := fmt.Sprintf("t%d", variant)
 		var oldID uint64
+		if variant == 3 {
+			// an earlier restore of the same table broke off in mid-stream (it carried other pairs
+			// as well): the restore judged here is the retry
+			var first []model.KV
+			for i := 0; i < 12; i++ {
+				first = append(first, model.KV{K: fmt.Sprintf("!only-in-the-attempt-that-broke-off-%02d", i), V: []byte(strings.Repeat("x", 40))})
+			}
+			first = append(first, content...)
+			total := 0
+			for _, kv := range first {
+				total += recSize(name, kv) + 8
+			}
+			rd, cleanup, err := cluster.SnapshotStream(name, first, nil)
+			if err != nil {
+				r.Inconclusive("stream: " + err.Error())
+				return
+			}
+			err, returned := restoreWithWatchdog(e, name, &breakingReader{r: rd, left: total * 3 / 4})
+			cleanup()
+			if !returned {
+				r.Inconclusive("restore from a stream that breaks off did not return within 120 s")
+				return
+			}
+			if err == nil {
+				r.Violation("restore-succeeded-on-broken-stream", fmt.Sprintf("Restore(MaxInMemLogSize=%d) reported success although its stream ended with an error after %d of %d bytes", id.Limit, total*3/4, total), w)
+				return
+			}
+			r.Count("restores_retried_after_a_broken_attempt", 1)
+		}
 		if variant == 0 {
 			// target exists and holds different keys
 			tb, err := c.CreateTable(name)
@@ -338,6 +386,8 @@ func runThreshold(r *ev.Run, id caseID) {
 			switch {
 			case len(d.M) < len(exp.M) && onlyMissing(d, exp):
 				sig = "restore-loses-records"
+			case hasPrefixKey(d, "!only-in-the-attempt-that-broke-off-"):
+				sig = "pairs-of-a-broken-off-attempt-survive"
 			case hasPrefixKey(d, "pre-restore-"):
 				sig = "pre-restore-content-survives"
 			}
